@@ -999,7 +999,7 @@ func (ps *parser) parseMul() (*Expr, error) {
 }
 
 func (ps *parser) parseUnary() (*Expr, error) {
-	if ps.isOp("!") || ps.isOp("-") || ps.isOp("*") {
+	if ps.isOp("!") || ps.isOp("-") || ps.isOp("*") || ps.isOp("&") {
 		op := ps.next().text
 		x, err := ps.parseUnary()
 		if err != nil {
